@@ -368,7 +368,9 @@ func (tc *TypeChecker) ValidateObjectAgainstTypeDef(obj map[string]interface{}, 
 	// Check required fields (fields with defaults are not required)
 	for _, field := range typeDef.Fields {
 		if field.Required && field.Default == nil {
-			if _, exists := obj[field.Name]; !exists {
+			// null does not satisfy a required field: CheckType accepts null
+			// for every type and leaves requiredness to this check
+			if v, exists := obj[field.Name]; !exists || v == nil {
 				return fmt.Errorf("missing required field: %s", field.Name)
 			}
 		}
